@@ -2,6 +2,7 @@ import Driver.Util
 import SonicModel.Impl.Entry
 import SonicModel.Impl.DomParse
 import SonicModel.Impl.NumSkip
+import SonicModel.Impl.DomPadded
 namespace Driver
 open Sonic Sonic.Impl
 
@@ -31,6 +32,7 @@ def c02 (args : List String) : String :=
         | .ok e => Spec.utf8FirstInvalid buf 0 ≥ e
         | _ => false
       let md := (Sonic.DomP.document buf).isSome
+      let mdp := (Sonic.DomP.fromSlicePadded buf).isSome    -- the same parser on the padded copy, `n > len`, trailing check
       -- a leading number through the 32-lane model of do_skip_number (Impl/NumSkip.lean) and through the scalar one
       let w := skipWs buf 0
       let ires (r : IRes) : String := match r with
@@ -41,7 +43,7 @@ def c02 (args : List String) : String :=
         | some c => if c == 45 || isDigit c then
             s!" m.numB={ires (doSkipNumberB true buf c (w + 1))} m.numS={ires (doSkipNumber buf c (w + 1))}" else ""
         | none => ""
-      s!"m.lazy={verdictStr lz} spec.skip={ar (u && g)} spec.full={ar (u && s)} spec.prefix={ar pre} spec.sprefix={ar spre} utf8={ar u} m.dom={ar (u && md)}{nb}"
+      s!"m.lazy={verdictStr lz} spec.skip={ar (u && g)} spec.full={ar (u && s)} spec.prefix={ar pre} spec.sprefix={ar spre} utf8={ar u} m.dom={ar (u && md)} m.domp={ar (u && mdp)}{nb}"
   | _ => "bad-args"
 
 end Driver
